@@ -390,7 +390,7 @@ func checkC02(r *vlib.Run) int {
 
 func checkC04(r *vlib.Run) int {
 	extras := []HOp{{Kind: opClean, Cut: cutAll}, {Kind: opNoSess}, {Kind: opUnset}, {Kind: opUnknown, K: 0}, {Kind: opStartOpen, K: 0}, {Kind: opStartOpen, K: 1}}
-	cfg := corrCfg{class: "C04", exhaustLen: [2]int{6, 8}, exhaustSess: 2, extras: extras,
+	cfg := corrCfg{class: "C04", exhaustLen: [2]int{6, 7}, exhaustSess: 2, extras: extras,
 		randAPI: [2]int{4000, 150000}, randRaw: [2]int{300, 6000},
 		ropts: func(rng *vlib.Rng) randOpts {
 			return randOpts{nsess: 2 + rng.Intn(5), maxEvents: 8, cleanups: "mixed", uncorrelated: true}
